@@ -50,7 +50,7 @@ Step ==
        IF e.ev = "reset"
        THEN /\ stableCur' = <<None, None>> /\ UNCHANGED <<viol, cnt>>
        ELSE LET ps == Preds(e) IN
-            /\ viol' = viol \cup Failures(ps, e, l)
+            /\ viol' = Merge(viol, Failures(ps, e, l))
             /\ cnt'  = Count(cnt, ps)
             /\ stableCur' = IF e.a.sig = "stable" THEN <<e.a.curL, e.a.curR>> ELSE stableCur
   /\ l' = l + 1
